@@ -393,17 +393,19 @@ def expiry_sweep_c04(seed=0, tier="quick", cov=None):
 
 
 def market_step_tie():
-    """capstone over the generated Market._update_time / _add_order / _cancel_order / _execute_orders: the step function assembled from
+    """capstone over the generated Market._update_time / _add_order / _cancel_order / _execute_orders / walk of _execution: the step function assembled from
     the source's own statements is the model's step_rec, for every operation and every sequence of operations"""
     import py2coq_add
     import py2coq_cancel
     import py2coq_fill
     import py2coq_tick
+    import py2coq_walk
     src = os.path.join(REPO, "pams", "market.py")
     return _run_tie("translator:pams/market.py(step function from the generated methods)", src,
-                    lambda: [py2coq_tick.translate(REPO), py2coq_fill.translate(REPO), py2coq_add.translate(REPO), py2coq_cancel.translate(REPO)],
-                    ["TickGen.v", "FillGen.v", "AddGen.v", "CancelGen.v"], "MarketStepProofs.v", "MarketStep.",
-                    pre_proofs=("TickC06Proofs.v", "FillC08Proofs.v", "AddC04Proofs.v", "CancelC04Proofs.v"))
+                    lambda: [py2coq_tick.translate(REPO), py2coq_fill.translate(REPO), py2coq_add.translate(REPO), py2coq_cancel.translate(REPO),
+                             py2coq_walk.translate(REPO)],
+                    ["TickGen.v", "FillGen.v", "AddGen.v", "CancelGen.v", "WalkGen.v"], "MarketStepProofs.v", "MarketStep.",
+                    pre_proofs=("TickC06Proofs.v", "FillC08Proofs.v", "AddC04Proofs.v", "CancelC04Proofs.v", "WalkC01Proofs.v"))
 
 
 def book_tie():
